@@ -99,6 +99,7 @@ CATALOGUE = {
     "H3bentUHF": ([("H", (0.0, 0.0, 0.0)), ("H", (0.0, 0.0, 0.93)), ("H", (0.0, 0.25, 1.90))], 0, 1, "sto-3g", None, True, T),
 }
 HEAVY = {"LiH[f0]", "LiH", "H2O[f0,1]", "H5+chain", "H6chain"}   # one shard per (encoding, ordering)
+MEDIUM = {"H4chain", "H4asym", "H4rect", "H4triplet", "LiH[f0,5]", "H2_631g"}   # one shard per encoding
 
 
 def geometry(name, seed):
@@ -554,7 +555,7 @@ def run_trim_circuit(circ_case, ops, acc, only_op=None):
     """circ_case: {"word", "nq", "names", "subst"}; evaluates every operator that fits in the circuit width."""
     from tangelo.linq import Circuit, Gate
     from tangelo.toolboxes.operators import QubitOperator
-    from tangelo.toolboxes.operators.trim_trivial_qubits import trim_trivial_qubits
+    from tangelo.toolboxes.operators.trim_trivial_qubits import trim_trivial_qubits, trim_trivial_circuit, trim_trivial_operator
     word, nq, val = circ_case["word"], circ_case["nq"], circ_case["subst"]
     circ = Circuit([Gate(nm, list(t), (None if c is None else list(c)), par, v) for nm, t, c, par, v in word], n_qubits=nq)
     used = {q for _, t, c, _, _ in word for q in list(t) + list(c or [])}
@@ -566,6 +567,10 @@ def run_trim_circuit(circ_case, ops, acc, only_op=None):
     sig = "+".join(sorted(set(circ_case["names"]))) if circ_case.get("names") else "?"
     acc.states += 1
     narrowed = False
+    try:
+        states0 = {int(q): int(b) for q, b in trim_trivial_circuit(circ)[1].items()}
+    except Exception:
+        states0 = None      # reported through trim_trivial_qubits below
     for oid, terms in ops:
         if only_op is not None and oid != only_op:
             continue
@@ -609,6 +614,39 @@ def run_trim_circuit(circ_case, ops, acc, only_op=None):
                            "trimmed_operator": P.to_str(tterms), "patterns": circ_case.get("names")},
                           group="trim_trivial_qubits/expectation-changed")
         acc.out((Wt, len(tg), round(e0.real, 6)))
+        if states0 is None:
+            continue
+        # the operator-only entry point: reindex=False keeps the register, so the ORIGINAL state must give the same value
+        acc.ev()
+        try:
+            t2 = {w: complex(c) for w, c in trim_trivial_operator(qop, dict(states0), W, reindex=False).terms.items()}
+            if any(q >= W for w in t2 for q, _ in w):
+                raise IndexError("trimmed operator acts outside the register")
+            e2 = expect(psi, t2, W)
+            if abs(e0 - e2) > TOL_EXP:
+                acc.violation(f"trim_trivial_operator(reindex=False)/expectation-changed/{sig}:{oid.split(':')[0]}", case,
+                              {"original": e0, "trimmed": e2, "trim_states": states0, "trimmed_operator": P.to_str(t2)},
+                              group="trim_trivial_operator(reindex=False)/expectation-changed")
+        except Exception as e:
+            acc.violation(f"trim_trivial_operator(reindex=False)/exception/{type(e).__name__}:{sig}", case,
+                          {"err": repr(e)[:300], "trim_states": states0}, group="trim_trivial_operator(reindex=False)/exception")
+        # trim_states is a dict: its meaning must not depend on the insertion order of its keys
+        if len(states0) >= 2:
+            acc.ev()
+            rev = dict(reversed(list(states0.items())))
+            try:
+                t3 = {w: complex(c) for w, c in trim_trivial_operator(qop, rev, W, reindex=True).terms.items()}
+                if P.max_abs_diff(t3, tterms) > 1e-12:
+                    acc.violation(f"trim_trivial_operator/result-depends-on-key-order-of-trim_states/{oid.split(':')[0]}",
+                                  dict(case, trim_states_order=list(rev)),
+                                  {"trim_states (insertion order)": [[q, b] for q, b in rev.items()], "n_qubits": W,
+                                   "operator": P.to_str(terms), "result": P.to_str(t3),
+                                   "result with sorted keys": P.to_str(tterms)},
+                                  group="trim_trivial_operator/result-depends-on-key-order-of-trim_states")
+            except Exception as e:
+                acc.violation(f"trim_trivial_operator/exception-with-unsorted-trim_states/{type(e).__name__}",
+                              dict(case, trim_states_order=list(rev)), {"err": repr(e)[:300], "trim_states": list(rev.items())},
+                              group="trim_trivial_operator/exception-with-unsorted-trim_states")
     if narrowed:
         acc.nt(("trim", repr(word), nq))
     return acc
@@ -786,6 +824,13 @@ def run_frob_shard(sh):
 # runner interface
 # =====================================================================================================================
 
+def trim_widths(tier):
+    """(fixed width or None, gate orders)"""
+    if tier == "quick":
+        return [(None, ["layer"]), (5, ["layer"])]
+    return [(None, ["layer", "qubit-reversed"]), (5, ["layer", "qubit-reversed"]), (3, ["layer"])]
+
+
 def shards(tier, seed):
     sh = []
     # (a)
@@ -796,13 +841,14 @@ def shards(tier, seed):
             for enc in ENCODINGS:
                 for utd in ORDERINGS:
                     sh.append({"kind": "taper", "mol": name, "seed": seed, "encs": [enc], "utds": [utd], "w": 9})
+        elif name in MEDIUM:
+            for enc in ENCODINGS:
+                sh.append({"kind": "taper", "mol": name, "seed": seed, "encs": [enc], "w": 6})
         else:
             sh.append({"kind": "taper", "mol": name, "seed": seed, "w": 3})
     # (b)
     pats, _, _ = patterns(seed, tier)
-    widths = [None, 5] if tier == "quick" else [None, 3, 5]
-    orders = ["layer"] if tier == "quick" else ["layer", "qubit", "qubit-reversed"]
-    for nq in widths:
+    for nq, orders in trim_widths(tier):
         for first in pats:
             sh.append({"kind": "trim", "first": first, "nq": nq, "orders": orders, "seed": seed, "tier": tier, "w": 5})
         sh.append({"kind": "trim-ent", "nq": nq, "orders": orders, "seed": seed, "tier": tier, "w": 5})
@@ -854,7 +900,7 @@ def bounds(tier, seed):
                      "target_spins": "all non-negative spins compatible with the active electron number"},
         "trimming": {"patterns": {k: [[a, (b if isinstance(b, str) else round(b, 6))] for a, b in v] for k, v in pats.items()},
                      "entangling_blocks": list(ent_blocks(seed)), "pairs": PAIRS,
-                     "widths": [None, 5] if tier == "quick" else [None, 3, 5],
+                     "widths_and_gate_orders": trim_widths(tier),
                      "operators": len(operators(seed)), "string_parameter_value": round(0.9 + runner.seed_delta(seed), 6)},
         "truncation": {"n": [1, 2, 3, 4], "coefficients": list(COEFS), "epsilons": epsilons(seed),
                        "subset_cap": {f"{n}:{k}": frob_cap(n, k, tier) for n in (1, 2, 3, 4) for k in ("commuting", "mixed")},
